@@ -61,6 +61,7 @@ def main(pid):
             tf.unlink(missing_ok=True)
         tlc_must_pass(r, "Trace_Eyecite")
         ev.add_tlc(f"Trace_Eyecite[#{b // 1500}]", r, f"{len(part)} recorded sessions")
+        ev.add_hits(r.out)
         done, at, failed = set(), {}, set()
         for line in r.out.splitlines():
             if line.startswith('<<"DONE", '):
